@@ -146,7 +146,14 @@ func resolveUpdate(w *World, op Op, st Stored) *Request {
 	switch op.M {
 	case "ext":
 		for i := uint64(0); i < 1+op.MV%3; i++ {
-			ext = append(ext, fmt.Sprintf("ext-%d %x", i, mr.Uint32()))
+			switch mr.IntN(3) {
+			case 0:
+				ext = append(ext, fmt.Sprintf("ext-%d %x", i, mr.Uint32()))
+			case 1:
+				ext = append(ext, fmt.Sprintf("shard fill 100%% sealed %%s %%d %%v %%%02x", mr.Uint32()%256)) // legal text that is hostile to printf-style helpers
+			default:
+				ext = append(ext, fmt.Sprintf("Timestamp: %d", 1700000000+int64(mr.Uint32()%100000)))
+			}
 		}
 	case "otherorigin":
 		// text of another configured origin (or an unconfigured one) signed with this log's key
